@@ -308,6 +308,144 @@ def run_case(ctx, rng, job):
                     if got != flat(live):
                         ctx.violation('declaration-differs-after-class-narrowing',
                                       {'cls': cname, 'object': label, 'what': what, 'proto': p, 'got': got, 'expected': flat(live)})
+    # the shared empty declaration comes back as itself
+    from zope.interface.declarations import _empty
+    from zope.interface import classImplements, directlyProvidedBy
+    for p in protos:
+        for dumps, loads in ((pickle.dumps, pickle.loads), (pickle._dumps, pickle._loads)):
+            ctx.ev()
+            ctx.count('roundtrips[empty]')
+            try:
+                u = loads(dumps(_empty, p))
+            except Exception as e:
+                u = e
+            if u is not _empty:
+                ctx.violation('empty-declaration-not-identical', {'proto': p, 'got': repr(u)[:100]})
+    # the pure-Python pickler and copy.copy follow the same reduce protocol
+    import copy
+    for iname in ifs[:2]:
+        I = getattr(mod, iname)
+        ctx.ev()
+        ctx.count('roundtrips[python-pickler]')
+        if pickle._loads(pickle._dumps(I, 2)) is not I or copy.copy(I) is not I or copy.deepcopy(I) is not I:
+            ctx.violation('interface-not-identical', {'iface': iname, 'how': 'python pickler / copy'})
+    for cname in classes[:3]:
+        spec = implementedBy(getattr(mod, cname))
+        ctx.ev()
+        ctx.count('roundtrips[python-pickler]')
+        try:
+            ok = pickle._loads(pickle._dumps(spec, 2)) is spec and copy.copy(spec) is spec and copy.deepcopy(spec) is spec
+        except Exception as e:
+            ok = False
+        if not ok:
+            ctx.violation('class-spec-not-identical', {'cls': cname, 'how': 'python pickler / copy', 'shape': shapes[cname]})
+    # a class specification among the interfaces an object (or class) directly provides: the declaration names the class,
+    # so it follows later declarations on that class - and so must what was pickled before them
+    if len(classes) >= 2 and len(ifs) >= 2:
+        for _ in range(2):
+            cname, other = rng.sample(classes, 2)
+            cls, ocls = getattr(mod, cname), getattr(mod, other)
+            o = cls()
+            idir = getattr(mod, rng.choice(ifs))
+            directlyProvides(o, idir, implementedBy(ocls))
+            blobs = [(p, pickle.dumps(o.__provides__, p), pickle.dumps(o, p)) for p in protos]
+            twins = [(p, pickle.loads(b1), pickle.loads(b2)) for p, b1, b2 in blobs]
+            for p, t1, t2 in twins:
+                ctx.ev()
+                ctx.count('roundtrips[provides-naming-a-class]')
+                if flat(t1) != flat(o.__provides__) or flat(providedBy(t2)) != flat(providedBy(o)):
+                    ctx.violation('declaration-naming-a-class-differs', {'cls': cname, 'named': other, 'proto': p, 'when': 'at once',
+                                                                         'got': flat(t1), 'expected': flat(o.__provides__)})
+            inew = [getattr(mod, i) for i in ifs if getattr(mod, i) not in providedBy(o).flattened()]
+            if inew:
+                how = rng.choice(['classImplements', 'classImplementsOnly'])
+                (classImplements if how == 'classImplements' else classImplementsOnly)(ocls, inew[0])
+                ctx.op('later-declaration-on-named-class', other, how, nm(inew[:1]))
+                ctx.count('declarations_on_a_named_class_after_pickling')
+                for (p, b1, b2), (_, t1, t2) in zip(blobs, twins):
+                    ctx.ev(2)
+                    exp = flat(providedBy(o))
+                    l1, l2 = pickle.loads(b1), pickle.loads(b2)
+                    for label, got in (('twin-declaration', [k for k in flat(t1)]), ('twin-object', flat(providedBy(t2))),
+                                       ('loaded-later-object', flat(providedBy(l2)))):
+                        if label == 'twin-declaration':
+                            got, want = flat(t1), flat(o.__provides__)
+                        else:
+                            want = exp
+                        if got != want:
+                            ctx.violation('declaration-naming-a-class-differs',
+                                          {'cls': cname, 'named': other, 'proto': p, 'when': 'after ' + how, 'what': label,
+                                           'got': got, 'expected': want})
+                    if flat(l1) != flat(o.__provides__):
+                        ctx.violation('declaration-naming-a-class-differs',
+                                      {'cls': cname, 'named': other, 'proto': p, 'when': 'after ' + how, 'what': 'loaded-later-declaration',
+                                       'got': flat(l1), 'expected': flat(o.__provides__)})
+    # a declaration change interrupted by a dependent that raises: whatever state the class is left in, its
+    # specification still pickles by reference
+    class Grumpy:
+        armed = False
+
+        def changed(self, originally_changed):
+            if Grumpy.armed:
+                Grumpy.armed = False
+                raise RuntimeError('dependent refuses')
+    for cname in rng.sample(classes, min(2, len(classes))):
+        cls = getattr(mod, cname)
+        spec = implementedBy(cls)
+        g = Grumpy()
+        spec.subscribe(g)
+        how = rng.choice(['classImplements', 'classImplementsOnly', 'classImplementsOnly'])
+        inew = getattr(mod, rng.choice(ifs))
+        Grumpy.armed = True
+        try:
+            (classImplements if how == 'classImplements' else classImplementsOnly)(cls, inew)
+        except RuntimeError:
+            ctx.count('declarations_interrupted_by_a_raising_dependent')
+        Grumpy.armed = False
+        spec.unsubscribe(g)
+        spec2 = implementedBy(cls)
+        for p in protos:
+            ctx.ev()
+            ctx.count('roundtrips[after-interrupted-declaration]')
+            try:
+                u = pickle.loads(pickle.dumps(spec2, p))
+            except Exception as e:
+                u = e
+            if u is not spec2:
+                ctx.violation('class-spec-not-identical', {'cls': cname, 'after': 'interrupted ' + how, 'proto': p, 'unpickled': repr(u)[:120]})
+        # an ordinary declaration afterwards must not be lost to pickling either
+        classImplements(cls, getattr(mod, rng.choice(ifs)))
+        spec3 = implementedBy(cls)
+        ctx.ev()
+        if pickle.loads(pickle.dumps(spec3, 2)) is not spec3:
+            ctx.violation('class-spec-not-identical', {'cls': cname, 'after': 'interrupted %s, then classImplements' % how})
+    # classes whose metaclass has declarations of its own: what the class directly provides is stored without what the
+    # metaclass implied at declaration time; narrowing the metaclass later must show in the unpickled declaration too
+    if len(ifs) >= 3:
+        i0, i1, i2 = (getattr(mod, i) for i in rng.sample(ifs, 3))
+        src_meta = ('from zope.interface import implementer\nfrom %s import *\n'
+                    '@implementer(%s)\nclass Meta(type):\n    pass\n\nclass KMeta(metaclass=Meta):\n    pass\n'
+                    % (modname, i0.__name__))
+        mname = modname + '_meta'
+        with open(os.path.join(_dir, mname + '.py'), 'w') as f:
+            f.write(src_meta)
+        importlib.invalidate_caches()
+        mm = importlib.import_module(mname)
+        directlyProvides(mm.KMeta, i0, i1)
+        for when in ('at once', 'after narrowing the metaclass'):
+            for p in protos:
+                ctx.ev()
+                ctx.count('roundtrips[class-provides-under-a-declaring-metaclass]')
+                cp = mm.KMeta.__provides__
+                try:
+                    u = pickle.loads(pickle.dumps(cp, p))
+                    got = flat(u)
+                except Exception as e:
+                    got = repr(e)
+                if got != flat(cp):
+                    ctx.violation('class-provides-differs', {'cls': 'KMeta', 'when': when, 'proto': p, 'got': got, 'expected': flat(cp)},
+                                  mechanism='classprovides_reduce_unstripped')
+            classImplementsOnly(mm.Meta, i2)
     _manifest.append((modname, entries))
     ctx.shape(('shapes', tuple(sorted(shapes.values()))), nontrivial=True)
     if ctx.case < 1:
